@@ -318,6 +318,29 @@ pub fn run_exit_contract(
                 );
                 return out;
             }
+        } else if kind == "ignored-output-option" {
+            // the same check with an output destination that is accepted and ignored (a file or the word stdout) and
+            // the filter it requires: no display option is active - what the statistics file counts is what is shown
+            if fatal_reported(&r) {
+                continue;
+            }
+            if let Some(t) = file {
+                if t != shown.len() as u64 {
+                    out.fail = fail(
+                        "total-vs-shown-with-ignored-output-option",
+                        format!("statistics-file total errors {t}, messages shown on stderr {} [cmd: {cmd}]", shown.len()),
+                    );
+                    return out;
+                }
+            }
+            let want: Vec<i32> = if shown.is_empty() && file.unwrap_or(0) == 0 { vec![0] } else { vec![n.unwrap_or(0)] };
+            if !want.contains(&r.status) && !init_failed(&r) {
+                out.fail = fail(
+                    "status-with-ignored-output-option",
+                    format!("-E {:?}: exit status {} (expected {want:?}), {} messages shown [cmd: {cmd}]", n, r.status, shown.len()),
+                );
+                return out;
+            }
         } else if let Some(nstr) = kind.strip_prefix("cap:") {
             let cap: usize = nstr.parse().unwrap_or(usize::MAX);
             if shown.len() > cap {
